@@ -1422,16 +1422,22 @@ struct RealOut {
     nh: Option<Nexthop>,
 }
 
+/// Calls the real evaluation the way the daemon does: the RPKI table is handed over only
+/// when the assignment's `needs_rpki` flag is set (`TableManager::apply_import`,
+/// daemon/src/table_manager.rs:708: `policy.needs_rpki.then(|| self.rpki.read())`; export,
+/// daemon/src/event/mod.rs:3355: `.filter(|p| p.needs_rpki).map(|_| rpki.read())`).
+/// The reference interpreter always knows the VRPs.
 fn run_real(w: &World, asg: &PolicyAssignment, export: bool, r: &RouteCtx) -> Result<RealOut, PanicInfo> {
     let src = &w.sources[r.src].0;
+    let rpki: Option<&RpkiTable> = asg.needs_rpki.then_some(&w.rpki);
     guard(|| {
         let mut nh = r.nh;
         if export {
             let mut attr = Arc::clone(&r.attrs);
-            let d = table::apply_export(asg, Some(&w.rpki), src, &r.nlri, &mut attr, &mut nh, r.orig_nh, r.is_confed, r.local_addr, r.peer_addr);
+            let d = table::apply_export(asg, rpki, src, &r.nlri, &mut attr, &mut nh, r.orig_nh, r.is_confed, r.local_addr, r.peer_addr);
             RealOut { disp: Disp::of(d), rejected: d == Disposition::Reject, attrs: attr, nh }
         } else {
-            let (filtered, attr) = table::apply_import(asg, Some(&w.rpki), src, &r.nlri, &r.attrs, &mut nh);
+            let (filtered, attr) = table::apply_import(asg, rpki, src, &r.nlri, &r.attrs, &mut nh);
             RealOut { disp: if filtered { Disp::Reject } else { Disp::Accept }, rejected: filtered, attrs: attr, nh }
         }
     })
@@ -1698,6 +1704,21 @@ fn judge(ctx: &mut Ctx, asg: &PolicyAssignment, prog: &Program, r: &RouteCtx, ta
     };
     ctx.rep.count(&format!("{}:judged", tag));
     prefix_shape_counters(&mut ctx.rep, prog, r);
+    if let Some(pfx) = r.pfx {
+        let wants: Vec<RpkiSt> = prog.stmts.iter().flat_map(|s| s.conds.iter()).filter_map(|c| if let RCond::Plain(Cond::Rpki(x)) = c { Some(*x) } else { None }).collect();
+        if !wants.is_empty() {
+            let st0 = decode_attrs(&r.attrs);
+            if let Some((2, v)) = st0.path.as_ref().and_then(|p| p.last()) {
+                if let Some(o) = v.last() {
+                    let state = rpki_state(&ctx.w, pfx, Some(*o));
+                    ctx.rep.count(&format!("rpki:program-with-rpki-condition:route-state:{:?}", state));
+                    if wants.contains(&state) {
+                        ctx.rep.count("rpki:condition-state-equals-route-state");
+                    }
+                }
+            }
+        }
+    }
     ctx.rep.count(match a.decided {
         Some(Disp::Accept) => "clause:accept-by-statement",
         Some(Disp::Reject) => "clause:reject-by-statement",
@@ -2085,7 +2106,31 @@ fn gen_cond(rng: &mut Rng, m: &MTable) -> Cond {
             return Cond::Set(kind, (*rng.pick(&names)).clone(), gen_opt(rng, kind));
         }
     }
+    if rng.chance(1, 8) {
+        return Cond::Rpki(*rng.pick(&[RpkiSt::NotFound, RpkiSt::Valid, RpkiSt::Invalid, RpkiSt::Invalid]));
+    }
     gen_plain_cond(rng)
+}
+
+/// a route aimed at the VRPs: prefix at / below a VRP (up to two bits past its max
+/// length), AS_PATH ending in the VRP's AS (Valid within max length) or another one
+fn gen_rpki_route(rng: &mut Rng, w: &World, rep: &mut Report) -> RouteCtx {
+    let mut r = gen_route(rng, w, rep);
+    let (v6, a, l, ml, asn) = *rng.pick(&w.vrps);
+    let wd = width(v6) as u64;
+    let len = if rng.chance(1, 6) { rng.range(0, l as u64) } else { rng.range(l as u64, (ml as u64 + 2).min(wd)) } as u8;
+    let noise = ((rng.next_u64() as u128) << 64 | rng.next_u64() as u128) & if v6 { u128::MAX } else { 0xffff_ffff };
+    let tail = noise & ((1u128 << (wd as u32 - l as u32)) - 1);
+    let addr = mask_to(a | tail, len, v6);
+    r.nlri = if v6 { Nlri::V6(Ipv6Net { addr: Ipv6Addr::from(addr), mask: len }) } else { Nlri::V4(Ipv4Net { addr: Ipv4Addr::from(addr as u32), mask: len }) };
+    r.fam = if v6 { Fam::V6 } else { Fam::V4 };
+    r.pfx = Some((v6, addr, len));
+    r.via_wire = None;
+    let origin = if rng.chance(3, 5) { asn } else { *rng.pick(&ASNS) };
+    let mut attrs: Vec<Attribute> = r.attrs.iter().filter(|x| x.code() != Attribute::AS_PATH).cloned().collect();
+    attrs.extend(Attribute::new_with_bin(Attribute::AS_PATH, path_bytes(&vec![(2u8, vec![*rng.pick(&ASNS), origin])])));
+    r.attrs = Arc::new(attrs);
+    r
 }
 
 fn gen_stmt(rng: &mut Rng, m: &MTable, allow_nexthop: bool) -> MStmt {
@@ -2597,12 +2642,104 @@ fn run_eval(ctx: &mut Ctx, rng: &mut Rng, worlds: u64, routes_per: usize) {
             };
             let prog = m.resolve(export, default, &names);
             ctx.rep.max("statements-in-program", prog.stmts.len() as u64);
-            for _ in 0..routes_per {
-                let r = gen_route(rng, &ctx.w, &mut ctx.rep);
+            for i in 0..routes_per {
+                let r = if i % 8 == 7 { gen_rpki_route(rng, &ctx.w, &mut ctx.rep) } else { gen_route(rng, &ctx.w, &mut ctx.rep) };
                 shape_counters(&mut ctx.rep, &r);
                 judge(ctx, &asg, &prog, &r, "eval", Vec::new());
             }
         }
+        run_accumulated(ctx, rng, &m, routes_per / 2);
+    }
+}
+
+/// Assignments built the way operators build them: by several calls on the same
+/// direction (add after add, add after set, add after delete, delete-policies after
+/// add), with a policy holding an rpki-validation statement first, in the middle or
+/// last.  The result must evaluate as the policies it lists say, in the listed order.
+fn run_accumulated(ctx: &mut Ctx, rng: &mut Rng, m0: &MTable, routes: usize) {
+    let mut m = m0.clone();
+    let want = *rng.pick(&[RpkiSt::Invalid, RpkiSt::Invalid, RpkiSt::Valid, RpkiSt::NotFound]);
+    m.stmts.insert("r0".into(), MStmt { conds: vec![Cond::Rpki(want)], disp: Some(Disp::Reject), actions: Actions::default() });
+    m.pols.insert("pr".into(), vec!["r0".into()]);
+    for export in [false, true] {
+        let Ok(mut pt) = load_table(&m) else {
+            ctx.rep.count("eval:loader-refused");
+            return;
+        };
+        let mut pool: Vec<String> = if export { vec!["p0".into(), "p1".into(), "p2".into(), "p3".into()] } else { vec!["p0".into(), "p1".into()] };
+        rng.shuffle(&mut pool);
+        pool.truncate(rng.range(1, pool.len() as u64) as usize);
+        pool.insert(rng.usize(pool.len() + 1), "pr".into());
+        let dir = dir_of(export);
+        let default = *rng.pick(&[Disp::Accept, Disp::Accept, Disp::Pass]);
+        let mut steps: Vec<String> = Vec::new();
+        let mut last: Option<Arc<PolicyAssignment>> = None;
+        let shape = rng.below(4);
+        let mut calls: Vec<(&str, Vec<String>)> = Vec::new();
+        match shape {
+            // add, add, add ...: one policy per call
+            0 => calls.extend(pool.iter().map(|p| ("add", vec![p.clone()]))),
+            // set (first policy), then adds
+            1 => {
+                calls.push(("set", vec![pool[0].clone()]));
+                calls.extend(pool[1..].iter().map(|p| ("add", vec![p.clone()])));
+            }
+            // add something, delete the assignment, then build it up again
+            2 => {
+                calls.push(("add", vec![pool[0].clone()]));
+                calls.push(("delete-all", vec![]));
+                calls.extend(pool.iter().map(|p| ("add", vec![p.clone()])));
+            }
+            // adds, then one of the policies is taken out again
+            _ => {
+                calls.extend(pool.iter().map(|p| ("add", vec![p.clone()])));
+                if pool.len() > 1 {
+                    let victim: Vec<&String> = pool.iter().filter(|p| *p != "pr" || rng.chance(1, 4)).collect();
+                    if let Some(v) = victim.first() {
+                        calls.push(("delete-policies", vec![(*v).clone()]));
+                    }
+                }
+            }
+        }
+        let mut ok = true;
+        for (op, names) in &calls {
+            let res: Result<Option<Arc<PolicyAssignment>>, table::TableError> = match *op {
+                "add" => pt.add_assignment("global", dir, default.real(), names.clone()).map(|(_, a)| Some(a)),
+                "set" => pt.set_policy_assignment("global", dir, default.real(), names.clone()).map(Some),
+                "delete-all" => pt.delete_policy_assignment(dir, names, true),
+                _ => pt.delete_policy_assignment(dir, names, false),
+            };
+            steps.push(format!("{} {:?} -> {}", op, names, if res.is_ok() { "Ok" } else { "Err" }));
+            match res {
+                Ok(a) => last = a,
+                Err(_) => {
+                    ok = false;
+                    break;
+                }
+            }
+        }
+        let Some(asg) = last else { continue };
+        if !ok {
+            ctx.rep.count("eval:accumulated:refused");
+            continue;
+        }
+        ctx.rep.count("eval:accumulated-assignments");
+        let listed: Vec<String> = asg.policies.iter().map(|p| p.name.to_string()).collect();
+        match listed.iter().position(|p| p == "pr") {
+            None => ctx.rep.count("eval:accumulated:rpki-policy-removed"),
+            Some(0) => ctx.rep.count("eval:accumulated:rpki-policy-listed-first"),
+            Some(i) if i + 1 == listed.len() => ctx.rep.count("eval:accumulated:rpki-policy-listed-last"),
+            Some(_) => ctx.rep.count("eval:accumulated:rpki-policy-listed-in-the-middle"),
+        }
+        // order of the policies is the code's (not fixed by the statement); content by name
+        let prog = m.resolve(export, Disp::of(asg.disposition), &listed);
+        ctx.fallback_sig = Some("C14/eval/accumulated-assignment".into());
+        for i in 0..routes {
+            let r = if i % 2 == 0 { gen_rpki_route(rng, &ctx.w, &mut ctx.rep) } else { gen_route(rng, &ctx.w, &mut ctx.rep) };
+            let extra = vec![("assignment_built_by", Json::strs(steps.clone()))];
+            judge(ctx, &asg, &prog, &r, "eval-accumulated", extra);
+        }
+        ctx.fallback_sig = None;
     }
 }
 
@@ -2815,7 +2952,7 @@ fn run_crud(ctx: &mut Ctx, rng: &mut Rng, histories: u64) {
         let mut m = MTable::default();
         let mut live: BTreeMap<&'static str, Live> = BTreeMap::new();
         let mut ops: Vec<String> = Vec::new();
-        let probes: Vec<RouteCtx> = (0..8).map(|_| gen_route(rng, &ctx.w, &mut ctx.rep)).collect();
+        let probes: Vec<RouteCtx> = (0..8).map(|i| if i >= 6 { gen_rpki_route(rng, &ctx.w, &mut ctx.rep) } else { gen_route(rng, &ctx.w, &mut ctx.rep) }).collect();
         let steps = rng.range(25, 70);
         let stmt_names: Vec<String> = (0..5).map(|i| format!("s{}", i)).collect();
         let pol_names: Vec<String> = (0..4).map(|i| format!("p{}", i)).collect();
@@ -3325,12 +3462,18 @@ fn run_crud(ctx: &mut Ctx, rng: &mut Rng, histories: u64) {
                     if ok && Some(slot) == targeted_slot {
                         // (V2) a freshly built assignment evaluates as the named entities say
                         let prog = l.prog.clone();
+                        let accumulated = opname == "add" && prog.policies.len() > 1;
+                        if accumulated {
+                            ctx.rep.count("crud:assignment:accumulated");
+                        }
+                        ctx.fallback_sig = Some(format!("C14/crud/assignment/{}{}", opname, if accumulated { "/accumulated-assignment" } else { "" }));
                         for r in &probes {
                             let extra = vec![("ops", Json::strs(ops.clone()))];
                             if judge(ctx, &asg, &prog, r, "crud", extra) == Verdict::Violation {
                                 break;
                             }
                         }
+                        ctx.fallback_sig = None;
                     }
                     continue;
                 }
